@@ -14,8 +14,8 @@ Strength: **SPEC+C with two FULL cores** (DESIGN.md section 3, C06).
   `1 − cos(3π/(8q))`, which exceeds the documented `1 − cos(π/(4q))` and, for `q ≤ 5`, even the documented total
   `e(q) = 0.015 + 1 − cos(π/(4q))` — the check reports that as a finding.
 * CORE 2 (`Model/Buffer/Params.lean`, faithful to the C API entry points and `BufferParameters`): `params_total`
-  (what is true), `params_total_false` (the literal statement `C06_params_full` is false of the code: cap / join
-  values below 1 are accepted), `params_total_partial`, `reject_iff_*`, `setters_keep_upper`, …
+  (every accepted call runs with a legal configuration), `reject_iff_*` (exact rejection conditions),
+  `setters_keep_legal`, `legal_effective`, `generator_is_permissive`, …
 * SPEC (`Model/Buffer/Spec.lean`, the oracle the driver evaluates): `d2Seg_exact` (the projection–clamp formula is
   the true minimum over the segment), `slab_claim_sound`, `clear_seg_sound`, `cos_table_sound`, `inner_factor_safe`.
 
@@ -65,56 +65,51 @@ example : (nSegs 8 = 8 ∧ filletInterior 8 = 7 ∧ stepQ 8 = 1) ∧
 
 /-! ## CORE 2: parameter normalisation -/
 
-/-- the literal totality statement: every accepted input is a legal configuration -/
-def C06_params_full : Prop := ∀ (e : Entry) (c : Config), e.config = some c → c.Legal
+/-- **params_total.**  Every call through a C API entry point (any `int` for quadrant segments and styles, any bit pattern
+for the mitre limit) is either rejected or runs with a legal configuration: cap and join in 1..3.
+(`hreach`: a `GEOSBufferParams` object is only reachable through its setters, which keep legality: `setters_keep_legal`.)
+Before /repo commit 1591a29d6 this statement was false of the code — styles below 1 were accepted — which this check had
+reported as a finding; the model follows the fixed code. -/
+theorem params_total (e : Entry) (c : Config) (hreach : ∀ cfg, e = .withParams cfg → cfg.Legal) (h : e.config = some c) :
+    c.Legal := Core.params_total e c hreach h
 
-/-- … is **false of the code**: `GEOSBufferWithStyle(g, d, 8, /*endCapStyle*/ 0, 1, 5.0)` is accepted (only `> 3` is
-tested) and stores the illegal cap value 0, which the generator treats as "no cap at all". -/
-theorem params_total_false : ¬ C06_params_full := by
-  intro h
-  have := h (.withStyle 8 0 1 0x4014000000000000) _ rfl
-  exact absurd this (by decide)
+/-- what a legal configuration does: effective cap / join are the documented ones (never the vertex-less `none` cap),
+the effective quadrant-segment count is ≥ 1 whatever integer was stored -/
+theorem legal_effective (c : Config) (h : c.Legal) :
+    effCap c.endCap ≠ .none ∧ 1 ≤ c.effQuad ∧ (effJoin c.join = .round ↔ c.join = 1) := by
+  refine ⟨Core.effCap_ne_none _ h.1 h.2.1, Core.effQuad_pos c, ?_⟩
+  rw [Core.effJoin_round_iff]
+  have := h.2.2
+  omega
 
-/-- styles stored by setter sequences never exceed 3 -/
-theorem setters_keep_upper (l : List Setter) (c : Config) (hc : c.endCap ≤ 3 ∧ c.join ≤ 3) :
-    (runSetters c l).1.endCap ≤ 3 ∧ (runSetters c l).1.join ≤ 3 :=
-  Core.setters_keep_upper l c hc
+/-- setter sequences on a `GEOSBufferParams` object keep it legal; a rejected setter leaves it unchanged and reports 0 -/
+theorem setters_keep_legal (l : List Setter) : (runSetters Config.default l).1.Legal :=
+  Core.setters_keep_legal l _ Core.default_legal
 
-/-- a rejected setter leaves the object unchanged and reports 0 -/
 theorem setter_reject_keeps (c : Config) (s : Setter) (r : List Setter) (h : s.apply c = none) :
     runSetters c (s :: r) = ((runSetters c r).1, false :: (runSetters c r).2) := by
   simp [runSetters, h]
 
 /-- exactly which calls are rejected -/
 theorem reject_iff_withStyle (q cap join : Int) (m : UInt64) :
-    (Entry.withStyle q cap join m).config = none ↔ (cap > 3 ∨ join > 3) := Core.reject_iff_withStyle q cap join m
+    (Entry.withStyle q cap join m).config = none ↔ (cap < 1 ∨ cap > 3 ∨ join < 1 ∨ join > 3) :=
+  Core.reject_iff_withStyle q cap join m
 
 theorem reject_iff_offsetCurve (q join : Int) (m : UInt64) :
-    (Entry.offsetCurve q join m).config = none ↔ join > 3 := Core.reject_iff_offsetCurve q join m
+    (Entry.offsetCurve q join m).config = none ↔ (join < 1 ∨ join > 3) := Core.reject_iff_offsetCurve q join m
 
 theorem reject_iff_singleSided (q join : Int) (m : UInt64) (l : Int) :
-    (Entry.singleSidedBuffer q join m l).config = none ↔ join > 3 := Core.reject_iff_singleSided q join m l
+    (Entry.singleSidedBuffer q join m l).config = none ↔ (join < 1 ∨ join > 3) := Core.reject_iff_singleSided q join m l
 
 theorem buffer_never_rejects (q : Int) : ∃ c, (Entry.buffer q).config = some c ∧ c.Legal ∧ c.quadSegs = q := by
   refine ⟨_, rfl, ?_, rfl⟩
   show (1 : Int) ≤ 1 ∧ (1 : Int) ≤ 3 ∧ (1 : Int) ≤ 1 ∧ (1 : Int) ≤ 3
   omega
 
-/-- **params_total (what is true).**  Every call of a function entry point is either rejected, or runs with a
-configuration whose styles are at most 3 and whose *effective* behaviour is one of the documented ones — except that
-the effective cap is `none` exactly when the raw cap value is below 1.  The effective quadrant-segment count is ≥ 1
-whatever integer was passed.  (`hreach`: a `GEOSBufferParams` object is only reachable through its setters, see
-`setters_keep_upper`.) -/
-theorem params_total (e : Entry) (hreach : ∀ cfg, e = .withParams cfg → cfg.endCap ≤ 3 ∧ cfg.join ≤ 3) :
-    e.config = none ∨ ∃ c, e.config = some c ∧ c.endCap ≤ 3 ∧ c.join ≤ 3 ∧ 1 ≤ c.effQuad ∧
-      (effCap c.endCap = .none ↔ c.endCap < 1) ∧
-      (effJoin c.join = .round ↔ (c.join ≠ 2 ∧ c.join ≠ 3)) :=
-  Core.params_total e hreach
-
-/-- **params_total_partial**: the literal statement holds as soon as the caller passes styles ≥ 1 -/
-theorem params_total_partial (q cap join : Int) (m : UInt64) (hc : 1 ≤ cap) (hj : 1 ≤ join) :
-    (Entry.withStyle q cap join m).config = none ∨ ∃ c, (Entry.withStyle q cap join m).config = some c ∧ c.Legal :=
-  Core.params_total_partial q cap join m hc hj
+/-- the generator's own tests stay as permissive as before (they compare with the three constants only): a stored cap
+outside 1..3 would add no cap vertices, a stored join outside {2,3} behaves as round -/
+theorem generator_is_permissive (s : Int) (h : s ≤ 3) : (effCap s = .none ↔ s < 1) ∧ (effJoin s = .round ↔ (s ≠ 2 ∧ s ≠ 3)) :=
+  ⟨Core.effCap_none_iff s h, Core.effJoin_round_iff s⟩
 
 /-- offset curves never use fewer than 8 quadrant segments; `GEOSSingleSidedBuffer` always has flat caps -/
 theorem offsetCurve_quad_ge8 (q join : Int) (m : UInt64) (c : Config) (h : (Entry.offsetCurve q join m).config = some c) :
@@ -124,15 +119,15 @@ theorem singleSided_cap_flat (q join : Int) (m : UInt64) (l : Int) (c : Config)
     (h : (Entry.singleSidedBuffer q join m l).config = some c) : effCap c.endCap = .flat ∧ c.quadSegs = q :=
   Core.singleSided_cap_flat q join m l c h
 
-/-- the closing-segment factor is 80 only for raw `q ≥ 8` *and* raw join value exactly 1: a join value of 0 behaves
-as round but gets factor 1 -/
-theorem closingFactor_quirk : (effJoin 0 = .round) ∧ ({ quadSegs := 8, join := 0 } : Config).closingFactor = 1 ∧
-    ({ quadSegs := 8, join := 1 } : Config).closingFactor = 80 ∧ ({ quadSegs := 7, join := 1 } : Config).closingFactor = 1 := by
+/-- the closing-segment factor is 80 only for raw `q ≥ 8` and join ROUND -/
+theorem closingFactor_cases : ({ quadSegs := 8, join := 1 } : Config).closingFactor = 80 ∧
+    ({ quadSegs := 7, join := 1 } : Config).closingFactor = 1 ∧ ({ quadSegs := 8, join := 3 } : Config).closingFactor = 1 := by
   decide
 
 example : (Entry.withStyle 8 4 1 0).config = none ∧ (Entry.withStyle 8 1 4 0).config = none ∧
-    (Entry.withStyle 0 (-7) 0 0).config = some ⟨0, -7, 0, 0, false⟩ := by decide
-example : (runSetters Config.default [.cap 4, .cap 2, .join 9, .quad (-3)]) =
+    (Entry.withStyle 8 0 1 0).config = none ∧ (Entry.withStyle 0 1 (-7) 0).config = none ∧
+    (Entry.withStyle (-5) 3 2 0).config = some ⟨-5, 3, 2, 0, false⟩ := by decide
+example : (runSetters Config.default [.cap 4, .cap 2, .join 0, .quad (-3)]) =
     ({ quadSegs := -3, endCap := 2 }, [false, true, false, true]) := by decide
 
 /-! ## SPEC: the oracle's arithmetic is exact and its tolerance table is on the safe side -/
